@@ -273,12 +273,18 @@ func checkC13(p *Prog, r *Report) {
 	cr := anchorFunc(p, r, pkgMaincmd, "", "ClientRun")
 	rfl := anchorFunc(p, r, pkgReceiver, "Transfer", "ReceiveFileList")
 	if cr != nil && rfl != nil {
+		// the part of ClientRun that receives may have been split into a helper
+		// of the same package: work in the function that calls ReceiveFileList
 		var recv ssa.CallInstruction
-		allCalls(cr, func(c ssa.CallInstruction) {
-			if c.Common().StaticCallee() == rfl {
-				recv = c
-			}
-		})
+		entry := cr
+		for _, fn := range p.ModGraph().unitFuncs(entry) {
+			allCalls(fn, func(c ssa.CallInstruction) {
+				if c.Common().StaticCallee() == rfl {
+					recv = c
+					cr = fn
+				}
+			})
+		}
 		// writesRules: fn writes every element of `rules` then a 0 terminator on every nil-error path
 		writesRules := func(fn *ssa.Function, rules ssa.Value) bool {
 			var ws ssa.CallInstruction
@@ -351,7 +357,7 @@ func checkC13(p *Prog, r *Report) {
 				}
 			}
 		})
-		r.Cond(ok, "C13/RULES-SENT", "ClientRun sends filter rules before the list terminator", p.Pos(cr.Pos()), "rules loop / terminator / ReceiveFileList ordering not established")
+		r.Cond(ok, "C13/RULES-SENT", "ClientRun sends filter rules before the list terminator", p.Pos(entry.Pos()), "rules loop / terminator / ReceiveFileList ordering not established")
 	}
 	_ = nP
 	r.Uncovered("string semantics of the match (pattern == filepath.Base(name)), anchored patterns, rule grammar beyond the three prefixes")
